@@ -426,4 +426,17 @@ _unused = ("c05-p-union-inline", "C05", RXF,
   "        son_number = 0\n        self._create_union_branch_in_enfa(s_from, s_to, son_number)\n        son_number = 1\n        self._create_union_branch_in_enfa(s_from, s_to, son_number)",
   "        for son_number in (0, 1):\n            self._create_union_branch_in_enfa(s_from, s_to, son_number)")
 
+# ----------------------------------------------------------------------------- C07
+PYF = "pyformlang/regular_expression/python_regex.py"
+b("c07-no-compile-gate", "C07", PYF,
+  "        else:\n            re.compile(python_regex)  # Check if it is valid\n", "", "re.compile-gate")
+b("c07-gate-swallowed", "C07", PYF,
+  "            re.compile(python_regex)  # Check if it is valid\n",
+  "            try:\n                re.compile(python_regex)\n            except re.error:\n                pass\n", "re.compile-gate")
+b("c07-plus-not-escaped", "C07", PYF, "    \"+\": \"\\\\+\",\n", "", "escape-covers:'+'")
+b("c07-digit-shortcut", "C07", PYF, "    r\"\\d\": \"[0-9]\",", "    r\"\\d\": \"[1-9]\",", "shortcuts")
+p("c07-p-gate-first", "C07", PYF,
+  "        if not isinstance(python_regex, str):\n            python_regex = python_regex.pattern\n        else:\n            re.compile(python_regex)  # Check if it is valid\n",
+  "        if isinstance(python_regex, str):\n            re.compile(python_regex)\n        else:\n            python_regex = python_regex.pattern\n")
+
 VARIANTS = V
